@@ -53,7 +53,8 @@ checks["C01"] = dict(
 checks["C02"] = dict(
     runs=dict(
         quick=[H("HarnessCrash", crash(2, 1, opset=3), shards=20, depth=6),
-               H("HarnessCrash", crash(1, 2, opset=1, armopen=0, usability=0), shards=28, depth=6)],
+               H("HarnessCrash", crash(1, 2, opset=1, armopen=0, usability=0), shards=28, depth=6),
+               H("HarnessCrash", crash(1, 2, opset=1, armopen=0, pre=1, seg=128), shards=28, depth=6)],
         thorough=[H("HarnessCrash", crash(2, 1), shards=28, depth=6),
                   H("HarnessCrash", crash(1, 2, armopen=1, opset=3), shards=56, depth=7, timeout="40m"),
                   H("HarnessCrash", crash(2, 2, opset=1, armopen=0), shards=56, depth=7, timeout="40m")]),
@@ -83,7 +84,8 @@ checks["C03"] = dict(
 checks["C04"] = dict(
     runs=dict(
         quick=[H("HarnessCrash", crash(1, 1, pre=3, seg=64, opset=4), shards=4, depth=4),
-               H("HarnessCrash", crash(2, 1, pre=2, seg=100, script=31), shards=28, depth=6)],
+               H("HarnessCrash", crash(2, 1, pre=2, seg=100, script=31), shards=28, depth=6),
+               H("HarnessCrash", crash(1, 1, pre=2, seg=128, opset=4), shards=8, depth=4)],
         thorough=[H("HarnessCrash", crash(2, 1, pre=3, seg=64, opset=5), shards=40, depth=6, timeout="30m"),
                   H("HarnessCrash", crash(2, 1, pre=3, seg=100, opset=5), shards=40, depth=6, timeout="30m"),
                   H("HarnessCrash", crash(3, 1, pre=2, seg=100, opset=5), shards=56, depth=7, timeout="40m")]),
@@ -113,7 +115,8 @@ checks["C13"] = dict(
 
 checks["C05"] = dict(
     runs=dict(
-        quick=[H("HarnessSeq", {"K": 3, "bmax": 100}, shards=28, depth=5)],
+        quick=[H("HarnessSeq", {"K": 3, "bmax": 100}, shards=28, depth=5),
+               H("HarnessSeq", {"K": 2, "bmax": 100, "seg": 64}, shards=4, depth=4)],
         thorough=[H("HarnessSeq", {"K": 3, "bmax": 100}, shards=28, depth=5),
                   H("HarnessSeq", {"K": 3, "bmax": 100, "seg": 64}, shards=28, depth=5),
                   H("HarnessSeq", {"K": 2}, shards=28, depth=5, timeout="30m"),
@@ -129,11 +132,13 @@ checks["C05"] = dict(
 checks["C08"] = dict(
     runs=dict(
         quick=[H("HarnessStable"),
+               H("HarnessStableBolt", {}, pkg="harness/hfs"),
                H("HarnessCrash", crash(2, 1, opset=9), shards=16, depth=6)],
         thorough=[H("HarnessStable"),
+                  H("HarnessStableBolt", {}, pkg="harness/hfs"),
                   H("HarnessCrash", crash(3, 1, opset=9), shards=40, depth=6, timeout="30m"),
                   H("HarnessCrash", crash(2, 1, opset=13, seg=64), shards=40, depth=6, timeout="30m")]),
-    required_reach=["stable-checked", "stable-set", "crash-verified"],
+    required_reach=["stable-checked", "stable-bolt-checked", "stable-set", "crash-verified"],
     bounds=dict(quick="keys of 1..2 symbolic bytes, values of 6..9 symbolic bytes, uint64 values 64-bit symbolic; interleaved with a sealing append, a truncation and a reopen; crash family: K<=2 operations from {append, Set} then a power loss at any call - an acknowledged Set is read back after recovery",
                 thorough="K<=3 and DeleteRange in the alphabet"),
     assumptions=COMMON_ASSUME + ["MetaStore model: SetStable atomic and durable on return (bbolt's own crash safety is trusted, not encoded)"],
@@ -206,7 +211,7 @@ checks["C16"] = dict(
     runs=dict(
         quick=[H("HarnessNoFalseAlarm", {}, pkg="harness/hverif", shards=8, depth=4)],
         thorough=[H("HarnessNoFalseAlarm", {}, pkg="harness/hverif", shards=8, depth=4)]),
-    required_reach=["no-false-alarm-checked", "plain", "follower-restart", "head-truncated", "leader-change", "two-checkpoints"],
+    required_reach=["no-false-alarm-checked", "plain", "follower-restart", "head-truncated", "leader-change", "two-checkpoints", "leader-restart"],
     bounds="2..3 entries (symbolic Term, 1..2 symbolic Data bytes) then a checkpoint; every split of the replication into two batches; scenarios: plain, follower restart before the checkpoint, follower head truncation (expects ErrRangeMismatch), leadership change with a conflicting suffix of every length (tail truncation + new leader's entries), two consecutive checkpoints",
     assumptions=VERIF_ASSUME,
     outside=["more than three nodes / more than two checkpoints", "ranges modified while their verification runs"],
